@@ -9,7 +9,10 @@ import (
 	"encoding/hex"
 	"encoding/json"
 	"fmt"
+	"os"
+	"os/exec"
 	"runtime"
+	"strings"
 	"sync"
 	"testing"
 
@@ -80,13 +83,19 @@ func getPools() *pools {
 	}
 	for i := 0; i < 3; i++ {
 		seed := pu.DetBytes(uint64(3000+i), 48)
-		d, err := pu.DilKey(seed)
-		if err != nil {
-			panic(err)
+		ref := pu.DilRef(seed)
+		if os.Getenv("VERIF_ALONE_OP") == "" || strings.Contains(os.Getenv("VERIF_ALONE_OP"), "shared") {
+			// the SHARED library key objects; a child computing a call's result "alone" builds them only if the call needs them
+			d, err := pu.DilKey(seed)
+			if err != nil {
+				panic(err)
+			}
+			p.d = append(p.d, d)
 		}
-		p.d = append(p.d, d)
-		p.dref = append(p.dref, pu.DilRef(seed))
-		p.dpk = append(p.dpk, d.GetPK())
+		p.dref = append(p.dref, ref)
+		var pk [dilithium.CryptoPublicKeyBytes]byte
+		copy(pk[:], ref.PK)
+		p.dpk = append(p.dpk, pk)
 		p.dmsgs = append(p.dmsgs, pu.DetBytes(uint64(4000+i), 10+60*i))
 		p.seeds = append(p.seeds, pu.DetBytes(uint64(5000+i), 48))
 		p.eseeds = append(p.eseeds, pu.DetBytes(uint64(6000+i), 51))
@@ -116,7 +125,21 @@ type program struct {
 }
 
 var ops = []string{"xmss.Verify", "xmss.Verify.bad", "xmss.Address", "xmss.IsValidAddress", "xmss.LegacyAddress", "xmss.IsValidLegacy", "descriptor", "mnemonic.enc48", "mnemonic.dec48", "mnemonic.enc51", "mnemonic.dec51", "mnemonic.bad",
-	"dil.Verify", "dil.Verify.bad", "dil.Open", "dil.Address", "dil.IsValidAddress", "dil.Sign.shared", "dil.Seal.shared", "dil.getters.shared", "xmss.private.Sign", "xmss.private.SetIndex", "xmss.private.getters"}
+	"dil.Verify", "dil.Verify.bad", "dil.Open", "dil.Address", "dil.IsValidAddress", "dil.Sign.shared", "dil.Seal.shared", "dil.getters.shared", "xmss.private.Sign", "xmss.private.SetIndex", "xmss.private.getters", "xmss.VerifyW", "xmss.VerifyW"}
+
+// Winternitz parameters presented to VerifyWithCustomWOTSParamW: the three supported ones and, per size class,
+// one value that the parameter validation also lets through (truncated log2): 17 ~ 16, 5 ~ 4, 300 ~ 256.
+var wChoices = []uint32{16, 4, 256, 17, 5, 300}
+
+func wSig(p *pools, a int, w uint32) []byte {
+	switch w {
+	case 16, 17:
+		return p.x[a].sig
+	case 4, 5:
+		return make([]byte, 4+32+133*32+32*4)
+	}
+	return make([]byte, 4+32+34*32+32*4)
+}
 
 // expected returns the reference answer for a stateless call ("" = stateful, checked separately).
 func expected(p *pools, c callSpec) string {
@@ -126,6 +149,11 @@ func expected(p *pools, c callSpec) string {
 		return "true"
 	case "xmss.Verify.bad":
 		return "false"
+	case "xmss.VerifyW":
+		if wChoices[c.B%len(wChoices)] == 16 {
+			return "true"
+		}
+		return aloneResult(c) // no reference model for other parameters: the definition is "what the call returns when run alone"
 	case "xmss.Address":
 		x := codecref.XMSSAddress(p.x[a].pk[:])
 		return hex.EncodeToString(x[:])
@@ -174,13 +202,57 @@ func expected(p *pools, c callSpec) string {
 	return ""
 }
 
+// ---- the "run alone" oracle: the same call in a fresh process that has done nothing else ----
+
+var aloneCache = map[callSpec]string{}
+var aloneMu sync.Mutex
+
+func aloneResult(c callSpec) string {
+	c.A %= 3
+	if c.Op == "xmss.VerifyW" {
+		c.B %= len(wChoices)
+	}
+	aloneMu.Lock()
+	defer aloneMu.Unlock()
+	if v, ok := aloneCache[c]; ok {
+		return v
+	}
+	b, _ := json.Marshal(c)
+	cmd := exec.Command(os.Args[0], "-test.run", "^TestAlone$", "-test.v")
+	cmd.Env = append(os.Environ(), "VERIF_ALONE_OP="+string(b), "VERIF_OUT=", "VERIF_LIST=")
+	out, err := cmd.CombinedOutput()
+	res := "ALONE-ORACLE-FAILED: " + fmt.Sprint(err)
+	for _, line := range strings.Split(string(out), "\n") {
+		if i := strings.Index(line, "ALONE-RESULT:"); i >= 0 {
+			res = line[i+len("ALONE-RESULT:"):]
+		}
+	}
+	aloneCache[c] = res
+	return res
+}
+
+// TestAlone is the child side of aloneResult (not a check by itself).
+func TestAlone(t *testing.T) {
+	js := os.Getenv("VERIF_ALONE_OP")
+	if js == "" {
+		t.Skip("child of the run-alone oracle only")
+	}
+	var c callSpec
+	if err := json.Unmarshal([]byte(js), &c); err != nil {
+		t.Fatal(err)
+	}
+	fmt.Printf("ALONE-RESULT:%s\n", exec1(getPools(), c))
+}
+
+func exec1(p *pools, c callSpec) string { return execCall(p, c, nil) }
+
 type privKey struct {
 	x    *xmss.XMSS
 	pool int
 }
 
 // exec runs one call; priv is the calling goroutine's private XMSS key.
-func exec(p *pools, c callSpec, priv *privKey) (res string) {
+func execCall(p *pools, c callSpec, priv *privKey) (res string) {
 	defer func() {
 		if v := recover(); v != nil {
 			if s, ok := v.(string); ok {
@@ -199,6 +271,9 @@ func exec(p *pools, c callSpec, priv *privKey) (res string) {
 		return fmt.Sprint(xmss.Verify(p.x[a].msg, p.x[a].sig, p.x[a].pk))
 	case "xmss.Verify.bad":
 		return fmt.Sprint(xmss.Verify(p.x[a].msg, p.x[a].bad, p.x[a].pk))
+	case "xmss.VerifyW":
+		w := wChoices[c.B%len(wChoices)]
+		return fmt.Sprint(xmss.VerifyWithCustomWOTSParamW(p.x[a].msg, wSig(p, a, w), p.x[a].pk, w))
 	case "xmss.Address":
 		x := xmss.GetXMSSAddressFromPK(p.x[a].pk)
 		return hex.EncodeToString(x[:])
@@ -317,7 +392,7 @@ func runProgram(r *ev.Recorder, pg *program) (string, string) {
 				if pg.Yield {
 					runtime.Gosched()
 				}
-				res1[g][i] = exec(p, c, priv)
+				res1[g][i] = execCall(p, c, priv)
 			}
 		}(g)
 	}
@@ -347,7 +422,7 @@ func runProgram(r *ev.Recorder, pg *program) (string, string) {
 					next[g]++
 					remaining = true
 					c := pg.Threads[g][i]
-					got := exec(p, c, privs[g])
+					got := execCall(p, c, privs[g])
 					r.Eval(1)
 					if got != res1[g][i] {
 						return "concurrent-vs-sequential/" + c.Op, fmt.Sprintf("goroutine %d call %d (%s a=%d b=%d): concurrent result %.80q, sequential (phase %d) result %.80q", g, i, c.Op, c.A, c.B, res1[g][i], phase, got)
@@ -367,7 +442,7 @@ func runProgram(r *ev.Recorder, pg *program) (string, string) {
 
 func TestPrograms(t *testing.T) {
 	r := ev.New(t, prop, "TestPrograms")
-	r.Rule("rapid draws a concurrent PROGRAM: 2..16 goroutines x 5..40 calls from {xmss.Verify valid/corrupted, address derivation/validation incl. legacy, descriptor encode/decode, mnemonic encode/decode/refusal, dilithium Verify/Open/address, Sign/Seal/getters on one of three SHARED Dilithium keys, Sign/SetIndex/getters on a goroutine-PRIVATE XMSS key} over pools of 3 keys per scheme, optional Gosched between calls, GOMAXPROCS in {1,2,4,16}; run under -race with all goroutines released by a barrier, then re-run sequentially in two interleavings; each shard is a fresh process (a lazily initialised cache can only race on first use); oracle: no race report, concurrent result == sequential results == reference model answer; non-trivial = a program in which >= 2 goroutines call the same operation family on different pool entries or share a Dilithium key, distinct by program")
+	r.Rule("rapid draws a concurrent PROGRAM: 2..16 goroutines x 5..40 calls from {xmss.Verify valid/corrupted, address derivation/validation incl. legacy, descriptor encode/decode, mnemonic encode/decode/refusal, dilithium Verify/Open/address, Sign/Seal/getters on one of three SHARED Dilithium keys, Sign/SetIndex/getters on a goroutine-PRIVATE XMSS key} over pools of 3 keys per scheme, optional Gosched between calls, GOMAXPROCS in {1,2,4,16}; run under -race with all goroutines released by a barrier, then re-run sequentially in two interleavings; each shard is a fresh process that begins with a first-use storm (every operation family first used from 8 goroutines at once; odd shards start with verifications under unusual Winternitz parameters) and alternation storms (8 goroutines switching pool entries every round); results without a reference model are compared with the same call run ALONE in a fresh child process; oracle: no race report, concurrent result == sequential results == reference model answer; non-trivial = a program in which >= 2 goroutines call the same operation family on different pool entries or share a Dilithium key, distinct by program")
 	r.Assume("schedules are sampled, not enumerated: the harness does not own the Go scheduler; the race detector reports unsynchronised conflicting accesses whenever both occur in a run without a happens-before edge")
 	p := getPools()
 	// first-use storm: in this fresh process the very first use of every operation family happens from 8
@@ -380,6 +455,26 @@ func TestPrograms(t *testing.T) {
 		x ^= x << 17
 		j := int(x>>3) % (i + 1)
 		order[i], order[j] = order[j], order[i]
+	}
+	if r.Shard()%2 == 1 {
+		// odd shards: the very first library use of the process is a verification with an unusual Winternitz
+		// parameter (incl. the non-powers-of-two the validation lets through); everything that follows is compared
+		// with the reference models, so a parameter cache poisoned by that call shows up there
+		for b := range wChoices {
+			for a := 0; a < 3; a++ {
+				execCall(p, callSpec{Op: "xmss.VerifyW", A: a, B: len(wChoices) - 1 - b}, nil)
+			}
+		}
+		r.Count("process_started_with_unusual_w", 1)
+		seen := map[string]bool{}
+		dedup := order[:0]
+		for _, op := range order {
+			if !seen[op] {
+				seen[op] = true
+				dedup = append(dedup, op)
+			}
+		}
+		order = dedup
 	}
 	for _, op := range order {
 		const G = 8
@@ -397,7 +492,7 @@ func TestPrograms(t *testing.T) {
 					priv = newPriv(p, g)
 				}
 				<-start
-				got[g] = exec(p, specs[g], priv)
+				got[g] = execCall(p, specs[g], priv)
 			}(g)
 		}
 		r.Pending(map[string]any{"first_use_storm": op})
@@ -411,6 +506,38 @@ func TestPrograms(t *testing.T) {
 			}
 		}
 		r.Count("first_use_storms", 1)
+	}
+	// alternation storms: 8 goroutines hammer ONE operation family, every goroutine switching to another pool
+	// entry (key / public key / seed) on every round - the access pattern that defeats a cache keyed on "the
+	// last key used" (sequentially detectable too) or published in two steps (only concurrently)
+	for _, op := range []string{"dil.Verify", "dil.Open", "dil.Sign.shared", "dil.Address", "xmss.Verify", "xmss.Address", "mnemonic.dec48", "xmss.VerifyW"} {
+		const G, R = 8, 24
+		var wg sync.WaitGroup
+		start := make(chan struct{})
+		bad := make([]string, G)
+		for g := 0; g < G; g++ {
+			wg.Add(1)
+			go func(g int) {
+				defer wg.Done()
+				<-start
+				for round := 0; round < R; round++ {
+					c := callSpec{Op: op, A: (g + round) % 3, B: (g*7 + round) % 6}
+					got := execCall(p, c, nil)
+					if want := expected(p, c); want != "" && got != want && bad[g] == "" {
+						bad[g] = fmt.Sprintf("%s a=%d b=%d: result %.60q, reference %.60q", op, c.A, c.B, got, want)
+					}
+				}
+			}(g)
+		}
+		r.Pending(map[string]any{"alternation_storm": op})
+		close(start)
+		wg.Wait()
+		r.Done()
+		r.Eval(G * R)
+		for g := 0; g < G; g++ {
+			r.Check(t, bad[g] == "", "alternation/"+op, &program{Procs: runtime.GOMAXPROCS(0), Threads: [][]callSpec{{{Op: op, A: 0, B: 0}, {Op: op, A: 1, B: 1}, {Op: op, A: 2, B: 2}}, {{Op: op, A: 1, B: 0}, {Op: op, A: 2, B: 1}, {Op: op, A: 0, B: 2}}}}, "alternating keys under concurrency: %s", bad[g])
+		}
+		r.Count("alternation_storms", 1)
 	}
 	checks := r.Pick(2, 10)
 	r.Rapid(t, "prog", checks, func(rt *rapid.T) {
